@@ -166,6 +166,13 @@ Fixpoint run_hist (k : N) (m : mode) (hb : N) (r : mmap_region) (h : heap) (ops 
   | o :: ops' => let x := model_step k m hb r h o in obs_of h x :: run_hist k m hb r (mo_heap x) ops'
   end.
 
+(* the heap after a history *)
+Fixpoint heap_after (k : N) (m : mode) (hb : N) (r : mmap_region) (h : heap) (ops : list op) {struct ops} : heap :=
+  match ops with
+  | [] => h
+  | o :: ops' => heap_after k m hb r (mo_heap (model_step k m hb r h o)) ops'
+  end.
+
 Definition run_C04 (c : case04) : list obs04 :=
   run_hist (c_kind c) (c_mode c) (c_hb c) {| mr_addr := c_pre c; mr_size := c_n c |} (c_heap c) (c_ops c).
 
